@@ -42,6 +42,10 @@ impl Log {
 
 /// Is blocking allowed on the current thread? (tokio refuses `block_on` on its async workers)
 fn blocking_allowed() -> bool {
+    // the threads of async-std's executor poll tasks; its blocking work runs on "blocking-N" threads
+    if std::thread::current().name().map(|n| n.starts_with("async-std/runtime")).unwrap_or(false) {
+        return false;
+    }
     match tokio::runtime::Handle::try_current() {
         Ok(h) => catch_unwind(AssertUnwindSafe(|| h.block_on(async {}))).is_ok(),
         Err(_) => true,
@@ -119,7 +123,9 @@ pub fn history(seed: u64, idx: u64) -> Case {
         })
         .collect();
     let release_before_drop = rng.chance(1, 3);
-    let desc_script = format!("max_blocking_threads={} ops={:?} release_gates_before_drop={}", mb, ops, release_before_drop);
+    // the wrapper's own runtime (where it sends its blocking work); the tasks are always polled by tokio
+    let runtime = if rng.chance(1, 3) { deadpool::Runtime::AsyncStd1 } else { deadpool::Runtime::Tokio1 };
+    let desc_script = format!("runtime={:?} max_blocking_threads={} ops={:?} release_gates_before_drop={}", runtime, mb, ops, release_before_drop);
     let log = Arc::new(Log::default());
     let mut viol: Vec<Violation> = Vec::new();
     let mut v = |oracle: &'static str, msg: String| viol.push(Violation { prop: "C14", oracle, msg });
@@ -133,7 +139,7 @@ pub fn history(seed: u64, idx: u64) -> Case {
         let main = async move {
             log.note_async();
             let l2 = log.clone();
-            let w = SyncWrapper::new(deadpool::Runtime::Tokio1, move || {
+            let w = SyncWrapper::new(runtime, move || {
                 l2.push(Ev::Ctor { thread: std::thread::current().id(), blocking_ok: blocking_allowed() });
                 Ok::<_, ()>(Val { id: 7, log: l2.clone() })
             })
@@ -172,20 +178,31 @@ pub fn history(seed: u64, idx: u64) -> Case {
                         for g in &gates {
                             g.release();
                         }
-                        let l = log.clone();
-                        let r = w
-                            .interact(move |_v| {
-                                let seq = l.next();
-                                l.push(Ev::Begin { op: i, thread: std::thread::current().id(), seq, blocking_ok: blocking_allowed() });
-                                let _g = EndGuard { log: l.clone(), op: i };
-                                std::panic::panic_any(InjectedPanic(i as u32));
-                            })
-                            .await;
+                        // awaited in a task of its own: if the panic comes out of interact().await itself
+                        // instead of being reported, only that task dies
+                        let (w2, l) = (w.clone(), log.clone());
+                        let jh = tokio::spawn(async move {
+                            l.note_async();
+                            let l2 = l.clone();
+                            let r = w2
+                                .interact(move |_v| {
+                                    let seq = l2.next();
+                                    l2.push(Ev::Begin { op: i, thread: std::thread::current().id(), seq, blocking_ok: blocking_allowed() });
+                                    let _g = EndGuard { log: l2.clone(), op: i };
+                                    std::panic::panic_any(InjectedPanic(i as u32));
+                                })
+                                .await;
+                            l.note_async();
+                            r
+                        })
+                        .await;
                         log.note_async();
-                        let s = match r {
-                            Ok(()) => "ok",
-                            Err(InteractError::Panic(_)) => "panic",
-                            Err(InteractError::Aborted) => "aborted",
+                        let s = match jh {
+                            Ok(Ok(())) => "ok",
+                            Ok(Err(InteractError::Panic(_))) => "panic",
+                            Ok(Err(InteractError::Aborted)) => "aborted",
+                            Err(e) if e.is_panic() => "the_awaiting_task_panicked",
+                            Err(_) => "task_cancelled",
                         };
                         poisoned_expected.store(true, Ordering::SeqCst);
                         results.lock().unwrap().push(format!("{}:panic:{}:poisoned={}", i, s, w.is_mutex_poisoned()));
@@ -300,7 +317,7 @@ pub fn history(seed: u64, idx: u64) -> Case {
             }
             // flush the blocking pool (FIFO): everything queued before has started afterwards
             for _ in 0..(2 * mb + 2) {
-                let _ = tokio::task::spawn_blocking(|| ()).await;
+                let _ = runtime.spawn_blocking(|| ()).await;
             }
             // bounded wait for the destructor
             for _ in 0..20_000 {
